@@ -25,7 +25,7 @@ for name in sorted(d for d in os.listdir(S) if os.path.isdir(os.path.join(S, d))
         verdict, how = 'MISSED', ''
     else:
         verdict, how = f'error rc={r.get("exit")}', (r.get('stderr_tail') or '')[-120:]
-    note = meta.get('strengthened', '')
+    note = meta.get('strengthened', '') or meta.get('not_covered', '')
     for other, ro in (r.get('also') or {}).items():
         how += f' [{other}: ' + ('failing input' if ro.get('exit') == 1 and not ro.get('no_failing_input') else 'caught' if ro.get('exit') == 1 else 'not caught') + ']'
     rows.append((name, meta['property'], files, verdict, how, str(r.get('seconds', '')), note))
